@@ -4,6 +4,8 @@ Reply format: `<model>\t<spec>`; spec patterns: `*` anything, `a|b` alternatives
 
   parse <hex>          parseRESP looped over the byte stream (hook child of the real binary)
   conn <hex>           the same bytes sent to the real server over TCP: does it survive, what did it allocate
+  zero <hex>           frames that carry no command (`*0`, `*-1`, blank lines) sent to the real server, then
+                       `PING`: handleConn must skip them and still answer `+PONG`
   cmd <hex> <hex> …    one command (RESP array of bulk strings) on the current connection
 -/
 import Driver.Lib
@@ -37,6 +39,7 @@ def setCfg (st : DSt) (kv : String) : Option DSt :=
         | ["chunked", n] => do let n ← natOf? n; pure { st with pc := { st.pc with bulkChunked := true, bulkChunk := n } }
         | _ => none
     -- structural facts: the model has exactly one behaviour for each
+    | "conn.skipEmpty" => if v == "len0" then some st else none
     | "resp.otherMakes" => if v == "none" then some st else none
     | "resp.lenParser" => if v == "atoi" then some st else none
     | "resp.negArrayNil" => if v == "true" then some st else none
@@ -148,6 +151,18 @@ def step (st : DSt) (toks : List String) : DSt × String :=
         | .oom => "crash"
         | .err _ => if bigConn r.alloc b.length then "alive mem=big" else "alive mem=ok"
       (st, out ++ "\talive mem=ok")
+    | none => (st, "bad-op")
+  | ["zero", h] =>
+    match bytesOf? h with
+    | some b =>
+      -- handleConn: a frame with no arguments is skipped (`len(args) == 0`), everything else goes to execute
+      let r := parseConn st.pc (b ++ [80, 73, 78, 71, 13, 10])
+      let cmds := r.frames.filter (fun f => !f.isEmpty)
+      let out := match r.fin with
+        | .panic => "crash"
+        | .oom => "crash"
+        | .err e => if e == .eof && cmds == [[some [80, 73, 78, 71]]] then "pong" else "n/a"
+      (st, out ++ "\t" ++ (if out == "n/a" then "*" else "pong"))
     | none => (st, "bad-op")
   | "cmd" :: hs =>
     match hs.mapM bytesOf? with
